@@ -401,7 +401,8 @@ pub fn run_image(
 
 /// C18 is about each query as a function of the bytes; the property has no history in it.
 /// A stream-side difference found inside a shared-stream history is therefore re-judged
-/// with that single query on fresh streams. If it vanishes, the tree's stream answers
+/// with that single query on fresh streams, then with that query asked twice. If it vanishes
+/// both times, the tree's stream answers
 /// depend on the call history (C07's subject) and the case is recorded as inconclusive.
 fn confirm_single_query(sc: &Scenario, v: &Violation, rep: &mut Report) -> Option<C18Outcome> {
     let mut one = sc.clone();
@@ -411,6 +412,23 @@ fn confirm_single_query(sc: &Scenario, v: &Violation, rep: &mut Report) -> Optio
             violation: Some((one, v1)),
         }),
         None => {
+            // ... unless the same query asked *twice* on a fresh stream over the prefix shows
+            // it: a repeated query is still a query on the prefix, and its answer must be an
+            // error or the complete file's (an error first and a wrong answer on the retry is
+            // the classic shape: a buffer cached before the read that fills it succeeded)
+            let mut two = one.clone();
+            if let Some(first) = two.ops.first().cloned() {
+                let mut again = first.clone();
+                two.ops[0].id = 1;
+                again.id = 2;
+                two.ops.push(again);
+                if let Some(v2) = judge(&two) {
+                    rep.add("confirmed_by_repeated_query", 1);
+                    return Some(C18Outcome {
+                        violation: Some((two, v2)),
+                    });
+                }
+            }
             rep.add("inconclusive_history_sensitive", 1);
             if rep.notes.len() < 8 {
                 rep.notes.push(
